@@ -51,8 +51,15 @@ MayFault(f) == f = "behave" \/ ncalls < MaxFaulty
 
 Vias == {"direct", "coalesce"}
 
+\* key 0: the option the dataset needs is ABSENT.  Under a coalesce the answer is then the fallback member --
+\* whatever the backend claims: if it (wrongly) says the entry exists, validation passes, the retrieval fails, the
+\* recomputation fails for the missing option, and the coalesce still moves on.
+Absent == 0
+Miss == IF key = Absent THEN "ret" ELSE "compute"
+ValOnMiss == IF key = Absent THEN "FALLBACK" ELSE val
+
 Start(k, via) ==
-    /\ pc = "idle" /\ nevals < MaxEvals
+    /\ pc = "idle" /\ nevals < MaxEvals /\ (k = Absent => via = "coalesce")
     /\ pc' = (IF via = "coalesce" THEN "vexists" ELSE "exists") /\ key' = k /\ val' = "none" /\ nevals' = nevals + 1
     /\ UNCHANGED <<store, ncalls, runs>>
     /\ act' = [a |-> "Start", k |-> k, via |-> via]
@@ -62,23 +69,27 @@ Start(k, via) ==
 VExists(f) ==
     /\ pc = "vexists" /\ MayFault(f) /\ f \in {"behave", "miss", "lie"}
     /\ LET r == IF f = "miss" THEN FALSE ELSE IF f = "lie" THEN TRUE ELSE key \in store IN
-       act' = [a |-> "Exists", k |-> key, f |-> f, r |-> IF r THEN "True" ELSE "False"]
-    /\ pc' = "exists" /\ ncalls' = ncalls + 1
-    /\ UNCHANGED <<store, key, val, nevals, runs>>
+       /\ act' = [a |-> "Exists", k |-> key, f |-> f, r |-> IF r THEN "True" ELSE "False"]
+       \* not stored (says the backend) => the dataset itself is validated: that fails iff its option is absent
+       /\ pc' = IF key = Absent /\ ~r THEN "ret" ELSE "exists"
+       /\ val' = IF key = Absent /\ ~r THEN "FALLBACK" ELSE val
+    /\ ncalls' = ncalls + 1
+    /\ UNCHANGED <<store, key, nevals, runs>>
 
 Exists(f) ==
     /\ pc = "exists" /\ MayFault(f) /\ f \in {"behave", "miss", "lie"}
     /\ LET r == IF f = "miss" THEN FALSE ELSE IF f = "lie" THEN TRUE ELSE key \in store IN
-       /\ pc' = IF r THEN "get" ELSE "compute"
+       /\ pc' = IF r THEN "get" ELSE Miss
+       /\ val' = IF r THEN val ELSE ValOnMiss
        /\ act' = [a |-> "Exists", k |-> key, f |-> f, r |-> IF r THEN "True" ELSE "False"]
     /\ ncalls' = ncalls + 1
-    /\ UNCHANGED <<store, key, val, nevals, runs>>
+    /\ UNCHANGED <<store, key, nevals, runs>>
 
 Get(f) ==
     /\ pc = "get" /\ MayFault(f) /\ f \in {"behave", "miss"}
     /\ LET ok == f = "behave" /\ key \in store IN
-       /\ pc' = IF ok THEN "ret" ELSE "compute"
-       /\ val' = IF ok THEN F(key) ELSE val
+       /\ pc' = IF ok THEN "ret" ELSE Miss
+       /\ val' = IF ok THEN F(key) ELSE ValOnMiss
        /\ act' = [a |-> "Get", k |-> key, f |-> f, r |-> IF ok THEN F(key) ELSE "CacheGetFailure"]
     /\ ncalls' = ncalls + 1
     /\ UNCHANGED <<store, key, nevals, runs>>
@@ -110,7 +121,7 @@ Return ==
     /\ act' = [a |-> "Return", k |-> key, v |-> val, runs |-> runs]
 
 Next ==
-    \/ \E k \in Keys, via \in Vias : Start(k, via)
+    \/ \E k \in Keys \cup {Absent}, via \in Vias : Start(k, via)
     \/ \E f \in Faults : VExists(f) \/ Exists(f) \/ Get(f) \/ Set(f) \/ Readback(f)
     \/ Compute \/ Return
 
@@ -118,7 +129,7 @@ Spec == Init /\ [][Next]_vars
 
 -----------------------------------------------------------------------------
 \* C17: every evaluation returns the value of its own options, whatever the backend did
-FaultyStillCorrect == pc = "ret" => val = F(key)
+FaultyStillCorrect == pc = "ret" => val = (IF key = Absent THEN "FALLBACK" ELSE F(key))
 \* ... at worst recomputing: at most one body run per evaluation
 AtMostRecompute == runs <= nevals
 \* a reliable backend memoises: with no faulty call, a key already stored is not recomputed
